@@ -366,20 +366,24 @@ def s_block_diag(*arrs):
 
 
 # ---- builtins
-def b_int(x=0, *a):
-    if isinstance(x, SNum):
-        return sym.fn_trunc(x)
-    if isinstance(x, SBool):
-        return SNum(z3.If(x.t, z3.IntVal(1), z3.IntVal(0)))
-    return builtins.int(x, *a)
+class b_int(int):
+    """`int` as seen by extracted code: truncation contract on symbolic numbers, the builtin otherwise."""
+
+    def __new__(cls, x=0, *a):
+        if isinstance(x, SNum):
+            return sym.fn_trunc(x)
+        if isinstance(x, SBool):
+            return SNum(z3.If(x.t, z3.IntVal(1), z3.IntVal(0)))
+        return builtins.int(x, *a)
 
 
-def b_float(x=0.0):
-    if isinstance(x, SNum):
-        return SNum(sym._real(x.t)) if x.is_int else x
-    if isinstance(x, np.ndarray) and x.dtype == object and x.shape in ((), (1,)):
-        return b_float(x.reshape(-1)[0])
-    return builtins.float(x)
+class b_float(float):
+    def __new__(cls, x=0.0):
+        if isinstance(x, SNum):
+            return SNum(sym._real(x.t), x.deg) if x.is_int else x
+        if isinstance(x, np.ndarray) and x.dtype == object and x.shape in ((), (1,)):
+            return b_float(x.reshape(-1)[0])
+        return builtins.float(x)
 
 
 def b_bool(x=False):
@@ -399,7 +403,14 @@ def b_round(x, nd=None):
 _NUMERIC_TYPES = (float, int, np.floating, np.integer)
 
 
+_UNSHIM = {}
+
+
 def b_isinstance(x, t):
+    if isinstance(t, tuple):
+        t = tuple(_UNSHIM.get(tt, tt) for tt in t)
+    else:
+        t = _UNSHIM.get(t, t)
     if isinstance(x, SNum):
         ts = t if isinstance(t, tuple) else (t,)
         if x.is_int:
@@ -459,6 +470,12 @@ for _r, _s in [
 ]:
     _reg(_r, _s)
 
+def s_finfo(t=float):
+    return np.finfo(_UNSHIM.get(t, t))
+
+
+_reg(np.finfo, s_finfo)
+_UNSHIM.update({b_int: int, b_float: float, b_bool: bool})
 BUILTINS = {"int": b_int, "float": b_float, "bool": b_bool, "round": b_round, "isinstance": b_isinstance}
 
 
